@@ -151,11 +151,18 @@ def _parser(tree):
     if len(loops) != 1:
         raise ExtractionError('FormatParser.getInt: expected one while loop')
     t = loops[0].test
-    if not (isinstance(t, ast.BoolOp) and isinstance(t.op, ast.And) and len(t.values) == 2 and
+    if not (isinstance(t, ast.BoolOp) and isinstance(t.op, ast.And) and len(t.values) == 3 and
             isinstance(t.values[0], ast.Name) and t.values[0].id == 'c' and isinstance(t.values[1], ast.Compare)
-            and isinstance(t.values[1].ops[0], ast.In)):
-        raise ExtractionError("FormatParser.getInt: expected `while c and c in '<digits>'`")
+            and isinstance(t.values[1].ops[0], ast.In) and isinstance(t.values[2], ast.Compare)
+            and isinstance(t.values[2].left, ast.Name) and t.values[2].left.id == 'digits'
+            and isinstance(t.values[2].ops[0], ast.Lt)):
+        raise ExtractionError("FormatParser.getInt: expected `while c and c in '<digits>' and digits < N`")
     digits = _const(t.values[1].comparators[0], str, 'getInt digits')
+    max_digits = _const(t.values[2].comparators[0], int, 'getInt max digits')
+    incs = [n for n in ast.walk(loops[0]) if isinstance(n, ast.AugAssign) and isinstance(n.target, ast.Name)
+            and n.target.id == 'digits' and isinstance(n.op, ast.Add) and _const(n.value, int, 'digits +=') == 1]
+    if len(incs) != 1:
+        raise ExtractionError('FormatParser.getInt: expected one `digits += 1`')
     base = limit = None
     for n in ast.walk(loops[0]):
         if isinstance(n, ast.Assign) and isinstance(n.targets[0], ast.Name) and n.targets[0].id == 'j' and \
@@ -166,7 +173,7 @@ def _parser(tree):
             limit = _const(n.test.comparators[0], int, 'getInt limit')
     if base is None or limit is None:
         raise ExtractionError('FormatParser.getInt: j = i * B / if j >= L not found')
-    return table, digits, base, limit
+    return table, digits, base, limit, max_digits
 
 
 def _strings(node):
@@ -338,7 +345,7 @@ def gen_reply():
     iu = parse('src/ircutils.py')
     with_bg, fg_only, end = _ctx_size(iu)
     start, reset = _ctx_start_end(iu)
-    table, digits, base, limit = _parser(iu)
+    table, digits, base, limit, max_digits = _parser(iu)
     for k in ('bold', 'reverse', 'underline'):
         if start[k] != table[k]:
             raise ExtractionError('FormatContext.start and FormatParser.parse disagree on the %s character' % k)
@@ -380,6 +387,7 @@ def gen_reply():
     body += st('digitChars', digits, "FormatParser.getInt: `while c and c in '…'`")
     body += nat('colorBase', base, 'FormatParser.getInt: `j = i * N`')
     body += nat('colorLimit', limit, 'FormatParser.getInt: `if j >= N`')
+    body += nat('colorDigits', max_digits, 'FormatParser.getInt: `digits < N`')
     body += nat('maxLine', cb['max_line'], 'reply: `allowedLength = N - len(probe)`')
     body += nat('tabFactor', cb['tab'], 'reply: `N * s_size` in the suffix reserve')
     body += st('probeTemplate', cb['probe'], 'reply: wire form of the probe')
